@@ -49,6 +49,11 @@ def stimuli(rng, tier):
 def run(rep, tier, replay):
     rng = random.Random(vlib.seed())
     exe = vlib.build_impl()
+    # (M+G) spec/Queues.tla: the ring-buffer deque and the binary-heap priority queue every pipeline queue is made of, transcribed
+    # and checked against sequence / bag semantics for every operation sequence; each replayed through the real macros / functions
+    import inproc as _inproc, os as _os
+    for why, beh in _inproc.queues_leg(rep, _os.path.join(_os.path.dirname(exe), "src"), tier):
+        rep.violation(why, dict(kind="inproc", cls="queue-replay", harness="replay_queues", stimulus=beh))
     pol = sched.policy_of(exe)
     rep.cov["policy"] = pol
     # ---- (M)
